@@ -180,7 +180,8 @@ def s2c_pack_job(job):
     return run_pack(rid, kind, entries, rng.random() < 0.5, rng.random() < 0.5, rng.choice([None, None, "utf-8", "cp1252", "cp932"]))
 
 
-VOCAB = ["a.sm", "A.SM", "b.Sm", "a.ssc", "B.SSC", "c.sSc", "c.sm.old", "d.ssca", "sm", "ssc", "e.png", "f.ogg", "readme.txt", "song.SM", "x.smx", "y.sm~"]
+VOCAB = ["a.sm", "A.SM", "b.Sm", "a.ssc", "B.SSC", "c.sSc", "c.sm.old", "d.ssca", "sm", "ssc", "e.png", "f.ogg", "readme.txt", "song.SM", "x.smx", "y.sm~",
+         ".sm", ".backup.sm", "._a.SM", ".ssc", "._B.ssc", ".hidden", "~a.sm", "#a.sm#", "a (copy).sm", "a.sm.sm"]
 
 
 def gen_dir(rng):
